@@ -387,7 +387,7 @@ def srv_dist(rs):
         cfg = t[0].split()
         ops = [o.strip() for o in t[1:]]
         d[cfg[1]] += 1
-        d["graceful"] += cfg[2] == "1"; d["raw_acceptor"] += cfg[3] == "raw"; d["makefail"] += cfg[4] != "-"
+        d["graceful"] += cfg[2] != "0"; d["completed_future_kept_alive"] = d.get("completed_future_kept_alive", 0) + (cfg[2] == "2"); d["raw_acceptor"] += cfg[3] == "raw"; d["makefail"] += cfg[4] != "-"
         d["with_signal"] += "signal" in ops
         d["with_cancelled_connect"] += any(o.startswith("connx") for o in ops)
         d["with_garbage"] += any(o.endswith("garbage") for o in ops)
@@ -427,7 +427,8 @@ SRVK_RULE = (" | srvk: the real Server (HTTP/1 or auto) on kernel and TLS accept
              "grid protocol x acceptor x fault x {before, after} (96 cases)")
 SRV_RULE = ("op sequences (connect, connect-then-give-up, complete / partial / rest-of / garbage request, partial HTTP/2 preface, "
             "handler release, client disconnect, shutdown signal, listener loss) for up to 4 raw clients against the real Server "
-            "(HTTP/1 or auto-detecting; with and without graceful shutdown; raw DuplexIncoming or Acceptor-wrapped; make-service "
+            "(HTTP/1 or auto-detecting; without graceful shutdown, with it and the future awaited by value, with it and the completed "
+            "future kept alive; raw DuplexIncoming or Acceptor-wrapped; make-service "
             "failing at the k-th connection) under the paused clock, with all tasks run to quiescence after every op; ends with a "
             "well-behaved probe client. non-trivial = at least 2 connections")
 SRV_ASSUMES = ["hyper's HTTP/1 server connection: one exchange at a time; after graceful_shutdown it finishes the exchange it "
